@@ -1,5 +1,5 @@
 //! C13 - curve extrapolation is conservative, only tightens, and is invisible as a cache.
-use response_time_analysis::arrival::{ArrivalBound, Curve, ExtrapolatingCurve};
+use response_time_analysis::arrival::{Curve, ExtrapolatingCurve};
 use response_time_analysis::time::Duration;
 
 use super::arr::*;
@@ -128,18 +128,3 @@ pub fn register(t: &mut Table) {
     );
 }
 
-harness!(x13_steps_then_query, 12, |s| {
-    let d = [1u64, 2, 0, 0];
-    let cached = ExtrapolatingCurve::new(mk_curve(&d, 2));
-    {
-        let mut it = cached.steps_iter();
-        let _ = it.next();
-        let _ = it.next();
-        let _ = it.next();
-    }
-    let x = s.bits(7);
-    let got = na(&cached, x);
-    let mut eager = mk_curve(&d, 2);
-    eager.extrapolate(Duration::from(x + 1));
-    assert!(got == na(&eager, x));
-});
